@@ -1035,13 +1035,14 @@ def chain_filters(prog, closure_fn):
     any adaptor further down the same iterator chain): [(filter call, predicate closure Fn)]"""
     out = []
     for (parent, hc, ai) in handed_to(prog, closure_fn):
-        if ai < 1 or not hc.decl.startswith('std::iter::'):
+        if ai < 1 or not (hc.decl.startswith('std::iter::') or hc.decl.startswith('std::option::Option::')):
             continue
         org = provenance(parent, hc.args[0], follow_all_call_args=False, pass_through=PASS_THROUGH | {
             'map', 'filter', 'take_while', 'into_iter', 'iter', 'iter_mut', 'enumerate', 'rev', 'peekable', 'inspect', 'copied', 'cloned', 'by_ref'})
         for x in org.calls:
-            # an item that got past `filter(p)` or `take_while(p)` satisfies p
-            if (x.decl.endswith('Iterator::filter') or x.decl.endswith('Iterator::take_while')) and len(x.args) > 1:
+            # an item that got past `filter(p)` or `take_while(p)` satisfies p (the same holds for the payload of Option::filter)
+            if (x.decl.endswith('Iterator::filter') or x.decl.endswith('Iterator::take_while') or
+                    re.search(r'^std::option::Option::<.*>::filter$', x.decl)) and len(x.args) > 1:
                 g = _closure_fn_of(prog, parent, x.args[1])
                 if g is not None:
                     out.append((x, g))
@@ -1104,6 +1105,17 @@ def handed_to(prog, closure_fn):
         return []
     locs = {st['dst']['l'] for b in parent.blocks.values() for st in b['stmts']
             if st['r']['rv'] == 'agg' and st['r']['kind'] == 'closure:' + closure_fn.name and not st['dst']['p']}
+    # the closure may sit in a variable first (`let f = |..| ..; iter.map(f)`): follow plain moves / copies of it
+    grew = True
+    while grew:
+        grew = False
+        for b in parent.blocks.values():
+            for st in b['stmts']:
+                r = st['r']
+                if r['rv'] == 'use' and not st['dst']['p'] and st['dst']['l'] not in locs and r['ops'] and is_place(r['ops'][0]) and \
+                        not r['ops'][0]['pl']['p'] and r['ops'][0]['pl']['l'] in locs:
+                    locs.add(st['dst']['l'])
+                    grew = True
     out = []
     for c in parent.calls:
         for i, a in enumerate(c.args):
